@@ -126,6 +126,8 @@ def record(cfg, chooser, max_events=400):
                 ev.append({'a': 'Send', 't': i['t'], 'cbp': i['cbp'], 'post': sc.post()})
             if sc.fin:
                 break
+            if last is not None and last['t'] == -99:
+                break      # an Interest for a name the object is not published under: the trace ends here (and is rejected)
             if last is None:
                 break
             exists = (cfg['n'] > 0) if last['t'] == -1 else (last['t'] < cfg['n'])
